@@ -27,7 +27,13 @@ XML = """<schema>
   <multikey name="kn" datatype="integer"><default>4</default><default>5</default></multikey>
   <key name="kp" datatype="byte-size" default="1kb"/>
  </sectiontype>
+ <sectiontype name="tc">
+  <multikey name="+" attribute="mq"/>
+  <multikey name="kw"/>
+  <key name="kv"/>
+ </sectiontype>
  <section type="tb" name="*" attribute="sb"/>
+ <section type="tc" name="*" attribute="sc"/>
  <key name="ki" datatype="integer" default="3"/>
  <key name="ks" datatype="string-list" default="a b"/>
  <multikey name="km"><default>m1</default></multikey>
@@ -50,6 +56,12 @@ OPS = {
     10: ('conversion', ['<tb>', 'zz x', '</tb>'], ()),
     11: ('matching', ['<ta ki>', '</ta>'], ()),             # 'ki' is the name of a key of the container
     12: ('valid', ['<ta m1>', '</ta>', '<ta m2/>', '<tb sb2/>'], ()),
+    # components whose datatype names differ in letter case only (the registry belongs to the schema)
+    13: ('import', ['%import vfq_c1', '<pq>', 'kq hello', '</pq>'], ()),
+    14: ('import', ['%import vfq_c2', '<pr>', 'kq hello', '</pr>'], ()),
+    # items WITHOUT defaults left out by the text: what the result holds is the application's to mutate
+    15: ('valid+mutate', ['<tc/>'], ()),
+    16: ('valid', ['<tc>', 'zq 1', 'kw 2', '</tc>'], ()),
 }
 
 
@@ -118,7 +130,7 @@ class C13(Harness):
                  'ZConfig.matcher.', 'ZConfig.info.', 'ZConfig.loader.', 'ZConfig.cmdline.')
     assumptions = (
         'one schema (defaults in lists, a wildcard-key default map, a string-list default, an abstract type, '
-        'a section datatype that can fail) and eight operations; histories up to 3 (quick) / 4 (thorough)',
+        'a section datatype that can fail, items without defaults) and the operations OPS of vf/harness/c13.py; histories up to 3 (quick) / 4 (thorough)',
         'the solver here enumerates a finite history space; only one value token per load is symbolic',
     )
     expected_classes = ('seq',)
